@@ -11,7 +11,7 @@ Lemma st_ext (a b : st) :
   s_open a = s_open b -> s_files a = s_files b -> s_bits a = s_bits b -> s_ranges a = s_ranges b ->
   s_pos a = s_pos b -> s_out a = s_out b -> s_hq a = s_hq b -> s_nodes a = s_nodes b ->
   s_delay a = s_delay b -> s_errno a = s_errno b -> s_storerr a = s_storerr b -> s_ierr a = s_ierr b ->
-  s_mem a = s_mem b ->
+  s_mem a = s_mem b -> s_retry a = s_retry b -> s_lim a = s_lim b ->
   a = b.
 Proof. destruct a, b; simpl; intros; subst; reflexivity. Qed.
 
@@ -286,9 +286,10 @@ Lemma queue_inv fuel : forall quick x s k,
   inv x s -> s_out s = Some k -> s_delay s = false -> (quick = true -> k = 0) ->
   (forall i, x = Some i -> i < s_pos s) ->
   length (s_nodes s) - s_pos s < fuel ->
+  s_lim s = None ->                       (* no memory pressure: ChunkManager::allocate never refuses *)
   queue_post quick x s (queue pl fuel quick s).
 Proof.
-  induction fuel as [|fuel IH]; intros quick x s k HI Ho Hd Hq Hx Hf; [lia|].
+  induction fuel as [|fuel IH]; intros quick x s k HI Ho Hd Hq Hx Hf Hlim; [lia|].
   cbn [queue].
   pose proof HI as [[S0 I0 NL RL B ND X NDP HL HR P O D] [C2 C9]].
   pose proof O as O'. rewrite Ho in O'. destruct O' as (Ok & Oo & Ob).
@@ -319,6 +320,8 @@ Proof.
   { destruct (nth_error (s_nodes s) p) as [nd|] eqn:Hn.
     - destruct (ND p nd Hn) as [_ N2]. rewrite (N2 Hnin Hxp). reflexivity.
     - apply nth_error_None in Hn. lia. }
+  assert (Hmf : mem_full (set_pos s p) = false) by (unfold mem_full; simpl; rewrite Hlim; reflexivity).
+  rewrite Hmf.
   rewrite (chunk_get_free (set_pos s p) p false Hnode). cbn [s_files set_pos s_nodes].
   destruct (map_windows (piece_windows pl (s_files s) p) (s_files s) []) as [fs' r] eqn:Hm.
   pose proof (map_windows_le (piece_windows pl (s_files s) p) (s_files s) []) as Hle.
